@@ -610,6 +610,30 @@ func constructorShard() mc.Shard {
 				fail("store.NewBin(-3, %v) refused a non-negative weight: %v", c, err)
 			}
 		}
+		// bare stores refuse non-positive reweighting factors and are left as they were
+		for _, k := range []Kind{{K: 'D'}, {K: 'S'}, {K: 'P'}, {K: 'L', N: 3}, {K: 'H', N: 3}} {
+			for _, f := range []float64{0, math.Copysign(0, -1), -1, -0.5, math.Inf(-1)} {
+				st := k.New()
+				st.AddWithCount(3, 2)
+				st.Add(5)
+				st.Add(5)
+				before := StoreContent(st)
+				res.Evaluations++
+				if err := st.Reweight(f); err == nil {
+					fail("%s store: Reweight(%v) was accepted", k, f)
+				} else if after := StoreContent(st); after != before {
+					fail("%s store: the refused Reweight(%v) changed the store from {%s} to {%s}", k, f, before, after)
+				}
+			}
+			for _, f := range []float64{0.5, 1, 3} {
+				st := k.New()
+				st.Add(5)
+				res.Evaluations++
+				if err := st.Reweight(f); err != nil {
+					fail("%s store: Reweight(%v) was refused: %v", k, f, err)
+				}
+			}
+		}
 		badStats := [][4]float64{{-1, 0, 1, 2}, {1, 0, 3, 2}, {0, 0, 1, 2}, {0, 0, math.Inf(1), 0}, {0, 0, 0, math.Inf(-1)}}
 		for _, b := range badStats {
 			res.Evaluations++
